@@ -61,6 +61,11 @@ def build_harness(scr, race=False):
 
 def run_vh(binary, args, timeout=1200, env=None, stdout=None):
     e = dict(os.environ)
+    # temporary files of the harness live inside the scratch directory of the check (next to the binary), so that
+    # they disappear with it even when the harness process is killed or dies on a race report
+    td = os.path.join(os.path.dirname(os.path.abspath(binary)), "tmp")
+    os.makedirs(td, exist_ok=True)
+    e["TMPDIR"] = td
     if env:
         e.update(env)
     try:
